@@ -1,4 +1,7 @@
-//! shared helpers
+//! s4verif — shared helpers of the in-process correspondence binaries.
+//! One binary per property lives in src/bin/<id>.rs: it reads cases on stdin (one per
+//! line, TAB separated, byte strings in hex) and writes one canonical result line per
+//! case on stdout.  Case generation, the Coq side and the comparison live in /verif/checks.
 #![allow(dead_code)]
 
 pub fn unhex(s: &str) -> Vec<u8> {
